@@ -237,6 +237,10 @@ func TestC10FEP(t *testing.T) {
 		}
 		defer r.cleanup()
 		r.drain()
+		lastWithID := map[common.Hash]int{}
+		for k, sub := range r.grpc.subs {
+			lastWithID[sub.ID] = k
+		}
 		for k, sub := range r.grpc.subs {
 			desc := fmt.Sprintf("[FEP] certificate #%d (height %d, %d exits, %d imported)", k, sub.InMem.Height, len(sub.InMem.BridgeExits), len(sub.InMem.ImportedBridgeExits))
 			gen := sub.Wire.GetAggchainData().GetGeneric()
@@ -255,10 +259,13 @@ func TestC10FEP(t *testing.T) {
 			if !ok || common.BytesToHash(gen.GetAggchainParams().GetValue()) != pr.AggchainParams || string(gen.GetSp1Stark().GetProof()) != string(pr.Proof) {
 				rt.Fatalf("%s: aggchain proof / params differ between the signed certificate and the wire\n  schedule: %s", desc, r.key())
 			}
-			if js, e := storedJSONAny(r.storageDir, sub.ID); e == nil {
+			if js, e := storedJSONAny(r.storageDir, sub.ID); e == nil && lastWithID[sub.ID] == k {
 				var s agglayertypes.Certificate
 				if err := jsonUnmarshal(js, &s); err != nil || s.Hash() != sub.InMem.Hash() || s.FEPHashToSign() != sub.InMem.FEPHashToSign() {
 					rt.Fatalf("%s: stored copy differs from the certificate that was signed and sent (%v)\n  schedule: %s", desc, err, r.key())
+				}
+				if sp, ok := s.AggchainData.(*agglayertypes.AggchainDataProof); !ok || string(sp.Signature) != string(pr.Signature) || string(sp.Proof) != string(pr.Proof) || sp.AggchainParams != pr.AggchainParams {
+					rt.Fatalf("%s: the stored copy's aggchain data (signature, proof, params) is not the one that was sent\n  schedule: %s", desc, r.key())
 				}
 				rec.Class("fep_stored_copies_compared")
 			}
